@@ -27,6 +27,7 @@ type thread struct {
 	vc        []int
 	lastKind  string
 	lastObj   string
+	repeat    int
 }
 
 // PointInfo describes one scheduling decision.
@@ -208,10 +209,26 @@ func (s *sched) park(t *thread) {
 }
 
 // Point is a scheduling point: the calling managed thread is about to perform the described step.
-func Point(kind, obj string) {
+func Point(kind, obj string) { point(kind, obj, false) }
+
+// maxRepeat: a thread that performs the SAME data access (same kind, same variable) again and again with nothing
+// else in between - a loop over a package-level slice or map - is offered as a preemption candidate only the first
+// maxRepeat times of each run of repeats.  This is one more stated bound of the exploration (it removes schedules,
+// never adds behaviour); the race detector still sees every access.
+const maxRepeat = 3
+
+func point(kind, obj string, collapsible bool) {
 	s, t := managed()
 	if t == nil {
 		return
+	}
+	if collapsible && t.lastKind == kind && t.lastObj == obj {
+		t.repeat++
+		if t.repeat >= maxRepeat {
+			return
+		}
+	} else {
+		t.repeat = 0
 	}
 	t.lastKind, t.lastObj = kind, obj
 	s.park(t)
@@ -264,7 +281,7 @@ func Access(id string, write bool) {
 	if write {
 		kind = "write"
 	}
-	Point(kind, id)
+	point(kind, id, true)
 	v := s.vars[id]
 	if v == nil {
 		v = &varState{wT: -1, reads: map[int]int{}, readAt: map[int]string{}}
